@@ -6,7 +6,7 @@ use bytes::Bytes;
 use common::Rng;
 
 use crate::lanes::{Kind, LaneSpec, Op};
-use crate::remote::Pace;
+use crate::remote::{Pace, ReqKind};
 
 #[derive(Clone, Copy, Debug, PartialEq, Eq)]
 pub enum Focus {
@@ -33,6 +33,12 @@ pub enum Step {
     Run(u32),
     /// Let everything that can run, run (virtual time moves on by 1 ms).
     Quiesce,
+    /// Virtual time moves on by this many ms (nothing else happens meanwhile).
+    Advance(u64),
+    /// A request for a lane the agent does not have. A command only keeps the read task awake (its
+    /// inactivity timer starts again; the write task is not told); the other kinds are also answered
+    /// by the write task (its timer starts again, an outstanding stop vote is rescinded).
+    Poke(usize, ReqKind),
 }
 
 #[derive(Clone, Copy, Debug, PartialEq, Eq)]
@@ -71,6 +77,8 @@ pub struct Plan {
     pub pace: Vec<Pace>,
     pub steps: Vec<Step>,
     pub ending: Ending,
+    /// Inactivity time-out of the runtime in ms of virtual time (None: never).
+    pub timeout_ms: Option<u64>,
     /// Unstall / speed up the remotes before the ending (otherwise they stay as the script left them).
     pub drain_before_end: bool,
     pub jitter_per_mille: u64,
@@ -146,18 +154,81 @@ impl Unique {
     }
 }
 
+/// About one body in ten is *empty*: the valid Recon of `()`, `None`, `Extant` (a map lane used as
+/// a set, an optional value that was reset). Such a body has no identity of its own: the oracles
+/// place it by its position among the changes of its key (see `oracle::Placing`).
+fn new_body(rng: &mut Rng, unique: &mut Unique) -> Bytes {
+    if rng.chance(1, 10) {
+        Bytes::new()
+    } else {
+        unique.next()
+    }
+}
+
 fn lane_op(rng: &mut Rng, spec: &LaneSpec, unique: &mut Unique) -> Op {
     match spec.kind {
-        Kind::Value => Op::Set(unique.next()),
+        Kind::Value => Op::Set(new_body(rng, unique)),
         Kind::Map => {
             let key = Bytes::from_static(rng.pick(&KEYS).as_bytes());
             match rng.below(10) {
                 0 => Op::Clr,
                 1 | 2 => Op::Rem(key),
-                _ => Op::Upd(key, unique.next()),
+                _ => Op::Upd(key, new_body(rng, unique)),
             }
         }
     }
+}
+
+/// A stretch of the script in which the lanes are silent for more than one inactivity time-out
+/// while a remote keeps the read task awake, then one lane event: the write task casts its stop
+/// vote, the vote stays incomplete, the event rescinds it (and must still reach the store before
+/// it reaches the subscriber).
+fn silence(rng: &mut Rng, t: u64, lanes: &[LaneSpec], registered: &[bool], attached: &mut [bool], unique: &mut Unique, steps: &mut Vec<Step>) {
+    let known: Vec<usize> = (0..lanes.len()).filter(|l| registered[*l]).collect();
+    if known.is_empty() {
+        return;
+    }
+    let persistent: Vec<usize> = known.iter().copied().filter(|l| !lanes[*l].transient).collect();
+    let l = if !persistent.is_empty() && rng.chance(5, 6) { *rng.pick(&persistent) } else { *rng.pick(&known) };
+    let r = rng.usize_below(attached.len());
+    if !attached[r] {
+        attached[r] = true;
+        steps.push(Step::Attach(r));
+    }
+    if rng.chance(9, 10) {
+        steps.push(Step::Unstall(r));
+    }
+    // Someone is subscribed to the lane that will speak.
+    steps.push(if rng.bool() { Step::Sync(r, l) } else { Step::Link(r, l) });
+    if rng.bool() {
+        steps.push(Step::Apply { lane: l, op: lane_op(rng, &lanes[l], unique), defer: false });
+    }
+    steps.push(Step::Quiesce);
+    // Requests at intervals shorter than the time-out (mostly): in total more than one time-out.
+    let half = (t / 2).max(1);
+    let mut total = 0;
+    while total <= t + half / 2 {
+        let kind = match rng.below(12) {
+            0 => ReqKind::Link,
+            1 => ReqKind::Unlink,
+            2 => ReqKind::Sync,
+            _ => ReqKind::Command,
+        };
+        steps.push(Step::Poke(r, kind));
+        // 0.5x .. <1x of the time-out; now and then longer (then the read task votes as well and the agent may stop).
+        let gap = if rng.chance(1, 12) { rng.range(t, t + half) } else { rng.range(half, t - 1) };
+        steps.push(Step::Advance(gap));
+        total += gap;
+    }
+    if rng.chance(2, 3) {
+        steps.push(Step::Poke(r, ReqKind::Command));
+        steps.push(Step::Advance(rng.range(1, half)));
+    }
+    for _ in 0..rng.range(1, 2) {
+        let l = if rng.chance(3, 4) { l } else { *rng.pick(&known) };
+        steps.push(Step::Apply { lane: l, op: lane_op(rng, &lanes[l], unique), defer: rng.chance(1, 8) });
+    }
+    steps.push(if rng.bool() { Step::Quiesce } else { Step::Run(rng.range(0, 12) as u32) });
 }
 
 pub fn plan(rng: &mut Rng, focus: Focus, lanes: &[LaneSpec], incarnation: u32, max_len: usize, unique: &mut Unique) -> Plan {
@@ -175,6 +246,30 @@ pub fn plan(rng: &mut Rng, focus: Focus, lanes: &[LaneSpec], incarnation: u32, m
         })
         .collect();
     let len = rng.range(8, max_len.max(9) as u64) as usize;
+    let ending = match rng.below(16) {
+        0..=5 => Ending::Stop,
+        6..=11 => Ending::Crash,
+        12 => Ending::Return(true),
+        13 => Ending::Return(false),
+        _ => Ending::Timeout,
+    };
+    // A finite inactivity time-out in a good share of the incarnations: short ones, so that the
+    // script's steps in virtual time (`Advance`) make the tasks of the runtime vote and rescind.
+    let timeout_ms = if ending == Ending::Timeout {
+        Some(*rng.pick(&[400u64, 400, 40]))
+    } else if rng.chance(1, 2) {
+        Some(*rng.pick(&[15u64, 40]))
+    } else {
+        None
+    };
+    let short = timeout_ms.filter(|t| *t < 400);
+    // Where the stretches of lane silence go (positions of the script).
+    let mut silence_at: Vec<usize> = vec![];
+    if short.is_some() {
+        for _ in 0..rng.range(1, 2) {
+            silence_at.push(rng.range((len / 3) as u64, len as u64) as usize);
+        }
+    }
     let mut steps: Vec<Step> = vec![];
     let mut registered: Vec<bool> = dynamic.iter().map(|d| !*d).collect();
     let mut attached = vec![false; remotes];
@@ -211,6 +306,17 @@ pub fn plan(rng: &mut Rng, focus: Focus, lanes: &[LaneSpec], incarnation: u32, m
             }
         }
         i += 1;
+        if let Some(t) = short {
+            if silence_at.contains(&i) {
+                silence(rng, t, lanes, &registered, &mut attached, unique, &mut steps);
+            }
+            // Time also passes between ordinary steps: 0.5x .. 1.5x of the time-out.
+            match rng.below(20) {
+                0 => steps.push(Step::Advance(rng.range(t / 2, t + t / 2))),
+                1 => steps.push(Step::Poke(rng.usize_below(remotes), if rng.chance(3, 4) { ReqKind::Command } else { ReqKind::Link })),
+                _ => {}
+            }
+        }
         let r = rng.usize_below(remotes);
         let l = rng.usize_below(n);
         let step = match rng.below(100) {
@@ -252,13 +358,6 @@ pub fn plan(rng: &mut Rng, focus: Focus, lanes: &[LaneSpec], incarnation: u32, m
         };
         steps.push(step);
     }
-    let ending = match rng.below(16) {
-        0..=5 => Ending::Stop,
-        6..=11 => Ending::Crash,
-        12 => Ending::Return(true),
-        13 => Ending::Return(false),
-        _ => Ending::Timeout,
-    };
     // A crash comes at a random point: sometimes right after a burst of changes.
     if ending == Ending::Crash && rng.chance(2, 3) {
         let known: Vec<usize> = (0..n).filter(|l| registered[*l]).collect();
@@ -281,6 +380,7 @@ pub fn plan(rng: &mut Rng, focus: Focus, lanes: &[LaneSpec], incarnation: u32, m
         pace,
         steps,
         ending,
+        timeout_ms,
         drain_before_end: rng.chance(1, 2),
         jitter_per_mille: *rng.pick(&[0u64, 0, 100, 300]),
         agent_jitter_per_mille: *rng.pick(&[0u64, 0, 100, 300]),
@@ -322,6 +422,7 @@ pub fn probe_plan(rng: &mut Rng, focus: Focus, lanes: &[LaneSpec], incarnation: 
         pace: vec![Pace { chunk: 4096, yields: 0 }],
         steps,
         ending: Ending::Stop,
+        timeout_ms: None,
         drain_before_end: true,
         jitter_per_mille: 0,
         agent_jitter_per_mille: 0,
